@@ -26,6 +26,8 @@ SYMBOLS = ['left', 'foo', 'Bar_2', 'a', 'top', 'x9', 'next', 'loop', 'stop']
 KEYWORD_SYMBOLS = ['loop', 'next', 'previous', 'playFile', 'fadeIn', 'fadeOut', 'stop', 'close']
 LIST_FUNCS = ['findpos', 'findposnear', 'getaprop', 'getone', 'getpos', 'getpropat', 'getprop']
 STRINGS = ['', 'hello', 'Hello World', 'x', 'a b', '10', 'it is', 'UPPER lower']
+# strings with the characters the two emitters have to escape (kept apart: not every oracle path tokenizes them)
+HARD_STRINGS = ['say "hi"', 'C:\\DATA\\file', 'a\\"b', '"', '\\', 'tab\there', 'x\\"']
 HANDLERS = ['mouseUp', 'exitFrame', 'doWork', 'helper', 'calc', 'new', 'startMovie', 'h2']
 
 class Gen:
@@ -863,10 +865,14 @@ class GenExt(Gen):
                 elif k < 0.8 and locs:
                     body.append(('set', ('loc', r.choice(locs)), ('mcall', ('me',), r.choice(mnames[1:]),
                                                                     [self.expr(cx, 1) for _ in range(r.choice([0, 1]))])))
+                elif k < 0.9:
+                    # the name of a method as a symbol LITERAL in the same script (a selector is written without its hash,
+                    # a literal keeps it)
+                    body.append(('call', 'put', [('sym', r.choice(mnames[1:]))]))
                 else:
                     body.append(self.simple(cx, 2))
             if r.random() < 0.5:
-                body.append(('call', 'return', [self.expr(cx, 1)]))
+                body.append(('call', 'return', [self.expr(cx, 1) if r.random() < 0.7 else ('sym', r.choice(mnames[1:]))]))
             handlers.append({'name': mn, 'args': args, 'locals': locs, 'body': body, 'method': True})
         return finish_script({'props': inst, 'globals': [], 'factory': r.choice(['makeStack', 'Counter']), 'scr_num': 2,
                               'handlers': handlers})
